@@ -7,7 +7,7 @@ fn nolog(_l: iceoryx2_log::LogLevel, _o: core::fmt::Arguments, _a: core::fmt::Ar
 #[repr(C, align(16))]
 struct Mem { payload: [u8; 64], mgmt: [u8; 64] }
 
-const REGION: usize = 48;
+const REGION_MAX: usize = 48;
 
 /// new_uninit at a symbolic, possibly unaligned start inside the block; init; two allocations of a symbolic request
 /// that fits the bucket; one deallocate + re-allocate.  Checks: in-bounds, aligned, >= requested size, disjoint,
@@ -18,7 +18,10 @@ fn check(bsize: usize, balign: usize) {
     let start_off: usize = kani::any();
     kani::assume(start_off < 4);
     let base = unsafe { mem.payload.as_mut_ptr().add(start_off) };
-    let mut sut = unsafe { PoolAllocator::new_uninit(bucket, NonNull::new_unchecked(base), REGION) };
+    // symbolic segment size: the bucket count must be right for EVERY size, not only for multiples of the bucket size
+    let region: usize = kani::any();
+    kani::assume(region >= 32 && region <= REGION_MAX);
+    let mut sut = unsafe { PoolAllocator::new_uninit(bucket, NonNull::new_unchecked(base), region) };
     let bump = BumpAllocator::new(unsafe { NonNull::new_unchecked(mem.mgmt.as_mut_ptr()) }, 64);
     assert!(unsafe { sut.init(&bump) }.is_ok());
     let n = sut.number_of_buckets() as usize;
@@ -41,15 +44,17 @@ fn check(bsize: usize, balign: usize) {
     let a = ra.unwrap();
     let b = sut.allocate(req).unwrap();
     let (pa, pb) = (a.as_ptr() as usize, b.as_ptr() as usize);
-    assert!(pa >= lo && pa + rsize <= lo + REGION);
-    assert!(pb >= lo && pb + rsize <= lo + REGION);
+    assert!(pa >= lo && pa + bsize <= lo + region);
+    assert!(pb >= lo && pb + bsize <= lo + region);
     assert!(pa % req.align() == 0);
     assert!(pb % req.align() == 0);
     assert!(pa + bsize <= pb || pb + bsize <= pa);
     // exhaust, then OutOfMemory
     let mut k = 2;
     while k < n {
-        assert!(sut.allocate(req).is_ok());
+        // EVERY bucket handed out lies inside the segment and is aligned (the last one is where a wrong count shows)
+        let p = sut.allocate(req).unwrap().as_ptr() as usize;
+        assert!(p >= lo && p + bsize <= lo + region && p % req.align() == 0);
         k += 1;
     }
     assert!(sut.allocate(req) == Err(AllocationError::OutOfMemory));
@@ -85,7 +90,7 @@ pool_harness!(pool_layout_6_4, 6, 4);
 fn pool_canary_must_fail() {
     let mut mem = Mem { payload: [0; 64], mgmt: [0; 64] };
     let bucket = Layout::from_size_align(8, 8).unwrap();
-    let mut sut = unsafe { PoolAllocator::new_uninit(bucket, NonNull::new_unchecked(mem.payload.as_mut_ptr()), REGION) };
+    let mut sut = unsafe { PoolAllocator::new_uninit(bucket, NonNull::new_unchecked(mem.payload.as_mut_ptr()), REGION_MAX) };
     let bump = BumpAllocator::new(unsafe { NonNull::new_unchecked(mem.mgmt.as_mut_ptr()) }, 64);
     assert!(unsafe { sut.init(&bump) }.is_ok());
     assert!(sut.allocate(bucket).is_err());
